@@ -9,40 +9,59 @@
 (*              notarget}                                                  *)
 (* The kernel part (filter survives execve, thread-sync covers the         *)
 (* runtime's threads, the target sees Decide) is Loader.tla's / Compile's. *)
-(* Dev (never in the code; self-test): "ExecBeforeLoad", "IgnoreLoadError" *)
+(* The policy file may be big (larger than any buffer) and the decisive     *)
+(* part - a later group, or the defect - may sit at its very end: the      *)
+(* policy that is enforced must be the whole file's.                       *)
+(* Dev (never in the code; self-test / seeded changes): "ExecBeforeLoad",  *)
+(* "IgnoreLoadError", "TruncatedRead" (only a prefix of a big file is      *)
+(* parsed)                                                                 *)
 (***************************************************************************)
 EXTENDS Integers, Sequences, TLC
 CONSTANTS Faults, Dev
 
-VARIABLES pc, fault, parsed, loaded, targetStarted, exitCode, events
-vars == <<pc, fault, parsed, loaded, targetStarted, exitCode, events>>
+VARIABLES pc, fault, parsed, loaded, targetStarted, exitCode, events,
+          big,        \* the policy file is big
+          atEnd,      \* the fault (or, for fault = none, a group that matters) sits at the end of the file
+          complete    \* the whole file was parsed
+vars == <<pc, fault, parsed, loaded, targetStarted, exitCode, events, big, atEnd, complete>>
+fvars == <<big, atEnd>>
 
 Init == /\ pc = "start" /\ fault \in Faults /\ parsed = FALSE /\ loaded = FALSE
         /\ targetStarted = FALSE /\ exitCode = -1 /\ events = <<>>
-Fail(ev) == pc' = "exited" /\ exitCode' = 1 /\ events' = Append(events, ev) /\ UNCHANGED <<fault, parsed, loaded, targetStarted>>
+        /\ big \in BOOLEAN /\ atEnd \in BOOLEAN /\ complete = FALSE
+\* a fault at the end of a big file is invisible to a reader that stops early
+Seen == complete \/ ~(big /\ atEnd)
+Fail(ev) == pc' = "exited" /\ exitCode' = 1 /\ events' = Append(events, ev) /\ UNCHANGED <<fault, parsed, loaded, targetStarted, complete>> /\ UNCHANGED fvars
 Args ==
   /\ pc = "start"
   /\ IF fault = "noargs" THEN Fail("usage")
-     ELSE pc' = "args" /\ UNCHANGED <<fault, parsed, loaded, targetStarted, exitCode, events>>
+     ELSE pc' = "args" /\ UNCHANGED <<fault, parsed, loaded, targetStarted, exitCode, events, complete>> /\ UNCHANGED fvars
 Parse ==
   /\ pc = "args"
-  /\ IF fault \in {"nofile", "unreadable", "badyaml", "wrongtype", "unknownaction"} THEN Fail("parse-error")
-     ELSE pc' = "parsed" /\ parsed' = TRUE /\ UNCHANGED <<fault, loaded, targetStarted, exitCode, events>>
+  /\ LET whole == ~("TruncatedRead" \in Dev /\ big)
+         seen == whole \/ ~(big /\ atEnd) IN
+     IF fault \in {"nofile", "unreadable"} \/ (fault \in {"badyaml", "wrongtype", "unknownaction"} /\ seen)
+     THEN pc' = "exited" /\ exitCode' = 1 /\ events' = Append(events, "parse-error") /\ complete' = whole
+          /\ UNCHANGED <<fault, parsed, loaded, targetStarted>> /\ UNCHANGED fvars
+     ELSE pc' = "parsed" /\ parsed' = TRUE /\ complete' = whole
+          /\ UNCHANGED <<fault, loaded, targetStarted, exitCode, events>> /\ UNCHANGED fvars
 Load ==
   /\ pc = "parsed"
-  /\ IF "ExecBeforeLoad" \in Dev THEN pc' = "loaded" /\ UNCHANGED <<fault, parsed, loaded, targetStarted, exitCode, events>>
-     ELSE IF fault \in {"unknownsyscall", "nosyscalls", "kernelrefuses"} /\ "IgnoreLoadError" \notin Dev THEN Fail("load-error")
-     ELSE /\ pc' = "loaded" /\ loaded' = (fault \notin {"unknownsyscall", "nosyscalls", "kernelrefuses"})
+  /\ IF "ExecBeforeLoad" \in Dev THEN pc' = "loaded" /\ UNCHANGED <<fault, parsed, loaded, targetStarted, exitCode, events, complete>> /\ UNCHANGED fvars
+     ELSE IF fault \in {"unknownsyscall", "nosyscalls", "kernelrefuses"} /\ Seen /\ "IgnoreLoadError" \notin Dev THEN Fail("load-error")
+     ELSE /\ pc' = "loaded"
+          \* what is in force is the policy that was parsed: the file's policy only if the whole file was
+          /\ loaded' = (complete /\ fault \notin {"unknownsyscall", "nosyscalls", "kernelrefuses", "badyaml", "wrongtype", "unknownaction"})
           /\ events' = Append(events, "seccomp-ok")
-          /\ UNCHANGED <<fault, parsed, targetStarted, exitCode>>
+          /\ UNCHANGED <<fault, parsed, targetStarted, exitCode, complete>> /\ UNCHANGED fvars
 Exec ==
   /\ pc = "loaded"
   /\ IF fault = "notarget" THEN Fail("exec-error")
      ELSE /\ pc' = "spawned" /\ targetStarted' = TRUE /\ events' = Append(events, "execve-target")
-          /\ UNCHANGED <<fault, parsed, loaded, exitCode>>
+          /\ UNCHANGED <<fault, parsed, loaded, exitCode, complete>> /\ UNCHANGED fvars
 Exit ==
   /\ pc = "spawned" /\ pc' = "exited" /\ exitCode' = 0
-  /\ UNCHANGED <<fault, parsed, loaded, targetStarted, events>>
+  /\ UNCHANGED <<fault, parsed, loaded, targetStarted, events, complete>> /\ UNCHANGED fvars
 Next == Args \/ Parse \/ Load \/ Exec \/ Exit
 Spec == Init /\ [][Next]_vars
 
@@ -50,6 +69,8 @@ Spec == Init /\ [][Next]_vars
 ExecOnlyUnderFilter == targetStarted => (parsed /\ loaded)
 FailureExitsNonZeroWithoutTarget ==
   (pc = "exited" /\ fault # "none") => (exitCode # 0 /\ ~targetStarted)
+\* the target only ever runs under the policy of the whole file
+WholeFileEnforced == targetStarted => complete
 HappyPathRuns == (pc = "exited" /\ fault = "none") => (exitCode = 0 /\ targetStarted)
 \* the strace view: no execve of the target before a successful seccomp
 TraceOrder ==
